@@ -983,7 +983,8 @@ def prep_deblend(rng, scene):
     return dict(npixels=int(rng.integers(2, 8)), nlevels=int(_opt(rng, 32, 16, 8)),
                 contrast=float(_opt(rng, 0.001, 0.01, 0.0, 0.05)), mode=_opt(rng, 'exponential', 'linear', 'sinh'),
                 connectivity=int(_opt(rng, 4, 8)), relabel=_use(rng, 0.7), on=_opt(rng, 'conv', 'data'),
-                sublabels=_use(rng, 0.2))
+                sublabels=_opt(rng, None, None, None, 'every2nd', 'descending', 'duplicates', 'tuple_int16'),
+                seg_history=_opt(rng, None, None, 'relabel', 'reassign'))
 
 
 def run_deblend(s, o):
@@ -996,10 +997,14 @@ def run_deblend(s, o):
         # the detection -> relabel the same footprint into 4-connected segments (scipy.ndimage.label, trusted)
         from scipy import ndimage as ndi
         segarr = ndi.label(segarr > 0)[0].astype(np.int32)
-    seg = SegmentationImage(segarr)
+    seg = seg_with_history(segarr, o.get('seg_history'))
     labels = None
     if o['sublabels'] and seg.nlabels > 1:
-        labels = seg.labels[::2]
+        # generic axis (xi): label lists unsorted / descending / with duplicates / as a tuple of another integer dtype
+        lab = seg.labels
+        labels = {'every2nd': lab[::2], 'descending': lab[::-1], 'duplicates': np.concatenate([lab[:2], lab[:2]]),
+                  'tuple_int16': tuple(np.asarray(lab[::-1], np.int16))}[o['sublabels']] if o['sublabels'] is not True \
+            else lab[::2]
     out = deblend_sources(s[o['on']], seg, o['npixels'], labels=labels, nlevels=o['nlevels'],
                           contrast=o['contrast'], mode=o['mode'], connectivity=o['connectivity'],
                           relabel=o['relabel'], nproc=1, progress_bar=False)
@@ -1069,7 +1074,8 @@ def prep_catalog(rng, scene):
                 apermask_method=_opt(rng, 'correct', 'mask', 'none'), kron_params=kp,
                 kron2=(float(rng.uniform(1.5, 2.6)), float(rng.uniform(0.8, 1.6))),
                 circ_r=float(rng.uniform(2.0, 7.0)), cutout_shape=Pair((int(rng.integers(5, 22)), int(rng.integers(5, 22)))),
-                sub=_opt(rng, None, None, None, 'one', 'slice'), methods=True, detcat=_use(rng, 0.2))
+                sub=_opt(rng, None, None, None, 'one', 'slice'), methods=True, detcat=_use(rng, 0.2),
+                seg_history=_opt(rng, *SEG_HISTORY))
 
 
 class Raised:
@@ -1171,9 +1177,32 @@ def catalog_rows(out, o, kron_params):
     return rows
 
 
+def seg_with_history(arr, mode):
+    """generic axis (x): a SegmentationImage that was used and modified before it is handed in (cached properties read
+    before and after every step), instead of a fresh one."""
+    from photutils.segmentation import SegmentationImage
+    seg = SegmentationImage(np.array(arr, copy=True))
+    if mode is None or seg.nlabels == 0:
+        return seg
+    _ = (seg.slices, seg.areas, seg.bbox, seg.labels)
+    if mode == 'relabel':
+        seg.relabel_consecutive(start_label=3)
+    elif mode == 'reassign':
+        seg.reassign_label(int(seg.labels[0]), int(seg.max_label) + 5)
+    elif mode == 'keep' and seg.nlabels > 2:
+        seg.keep_labels(seg.labels[::-1][:-1])            # descending order, drops the first label
+    elif mode == 'remove_relabel' and seg.nlabels > 2:
+        seg.remove_label(int(seg.labels[1]), relabel=True)
+    _ = (seg.slices, seg.areas, seg.labels)
+    return seg
+
+
+SEG_HISTORY = [None, None, None, 'relabel', 'reassign', 'keep', 'remove_relabel']
+
+
 def make_catalog(s, o):
     from photutils.segmentation import SegmentationImage, SourceCatalog
-    seg = SegmentationImage(np.array(s['segm'], copy=True))
+    seg = seg_with_history(s['segm'], o.get('seg_history'))
     bkg = s['bkg'] if o['use_bkg'] else None
     conv = s['conv'] if o['use_conv'] else None
     cat = SourceCatalog(s['data'], seg, convolved_data=conv, error=_err(s, o), mask=_mask(s, o),
@@ -1346,6 +1375,8 @@ def prep_profile(rng, scene):
         xy = np.array([rng.uniform(ox + m, ox + nx - 1 - m), rng.uniform(oy + m, oy + ny - 1 - m)])
         rmax = float(rng.uniform(14.0, 30.0))
     step = float(_opt(rng, 1.0, 0.5, 1.5, 0.8))
+    if rng.random() < 0.2:
+        xy = np.rint(np.asarray(xy) * 2.0) / 2.0          # exactly k or k + 0.5
     return dict(xycen=XY(xy), rmax=rmax, step=step, use_error=_use(rng), use_mask=_use(rng, 0.5),
                 method=_opt(rng, 'exact', 'exact', 'center', 'subpixel'), subpixels=int(rng.integers(1, 7)),
                 which=_opt(rng, 'radial', 'cog'))
@@ -1469,13 +1500,19 @@ def prep_model(rng, scene):
     shape = Pair((int(_opt(rng, 7, 9, 10, 13)), int(_opt(rng, 7, 8, 11, 15))))
     if rng.random() < 0.3:
         shape = int(_opt(rng, 7, 9, 12))
+    snapped = rng.random() < 0.4
+    if snapped and not False:
+        # generic axis (ix): coordinates exactly at k and k + 0.5 (even and odd k), small truncating windows of even
+        # and odd size: the window edge lands exactly on a pixel boundary / on the last pixel
+        x, y = np.rint(x * 2.0) / 2.0, np.rint(y * 2.0) / 2.0
+        shape = Pair((int(_opt(rng, 4, 5, 6, 7)), int(_opt(rng, 4, 5, 7, 8))))
     sc_ = scene.get('scale', 1.0)
     return dict(xy=XY(np.column_stack([x, y])), flux=rng.uniform(10, 500, n) * sc_, which=which,
                 sx=rng.uniform(1.0, 3.0, n), sy=rng.uniform(1.0, 3.0, n), theta=rng.uniform(0, np.pi, n),
                 model_shape=shape, use_bbox=_use(rng, 0.25) and which == 'gauss2d',
                 local_bkg=_opt(rng, None, rng.uniform(0, 3, n) * sc_),
                 discretize_method=_opt(rng, 'center', 'center', 'interp', 'oversample'),
-                oversample=int(_opt(rng, 3, 5)))
+                oversample=int(_opt(rng, 3, 5)), snapped=snapped, used_before=_use(rng, 0.3))
 
 
 def run_model(s, o):
@@ -1522,6 +1559,10 @@ def run_model(s, o):
         kw = dict(model_shape=ms)
         my, mx = (ms, ms) if np.isscalar(ms) else ms
         hy, hx = my / 2.0 + 1.0, mx / 2.0 + 1.0
+    if o.get('used_before'):
+        # generic axis (x): a model object with a history (evaluated, then copied) instead of a fresh one
+        model(1.0, 2.0)
+        model = model.copy()
     img = make_model_image(s['data'].shape, model, t, x_name=x_name, y_name=y_name,
                            discretize_method=o['discretize_method'], discretize_oversample=o['oversample'],
                            progress_bar=False, **kw)
